@@ -746,6 +746,39 @@ func ruleE5Loops(c *Ctx) []Ob {
 			s.undec(key, pos, "loop in the decode closure that is neither counted over a sanitised length, nor a strictly advancing bounded cursor, nor a range loop")
 		}
 	}
+	// time proportional to the input: no loop over decoded data inside another one. Each loop above runs at most once per
+	// input byte it consumes (or per element of a count the input can hold); two of them nested - comparing every decoded
+	// element with every other, say - make the work quadratic in a count the message chooses.
+	var all []*ssa.Function
+	for f := range closure {
+		if fnPkgPath(f) == pkgReflect && f.Blocks != nil {
+			all = append(all, f)
+		}
+	}
+	sort.Slice(all, func(i, j int) bool {
+		return all[i].Pos() < all[j].Pos() || all[i].Pos() == all[j].Pos() && all[i].String() < all[j].String()
+	})
+	nNest := 0
+	for _, fn := range all {
+		for _, inner := range fn.Blocks {
+			if !isLoopHeader(inner) || loopIndependentOfInput(fn, inner) {
+				continue
+			}
+			for _, outer := range fn.Blocks {
+				if outer == inner || !isLoopHeader(outer) || !outer.Dominates(inner) || !blockReaches(inner, outer) {
+					continue
+				}
+				if loopIndependentOfInput(fn, outer) {
+					continue
+				}
+				nNest++
+				s.bad(shortFn(fn)+":loop-nest", c.InstrPos(inner.Instrs[len(inner.Instrs)-1]), "a loop over decoded data runs inside another one ("+c.InstrPos(outer.Instrs[len(outer.Instrs)-1])+"): the work is not proportional to the input (quadratic in a count the message chooses)")
+			}
+		}
+	}
+	if nNest == 0 {
+		s.ok("loop-nest", "-", fmt.Sprintf("no loop over decoded data is nested in another one in the %d functions of the decode closure", len(all)))
+	}
 	return s.obs
 }
 
